@@ -187,3 +187,24 @@ func (k *KeepAlive) Close() {
 	case <-time.After(5 * time.Second):
 	}
 }
+
+// Reuse dispatches requests in process like Do, but every request is served by the same fasthttp.RequestCtx - as the
+// requests of one keep-alive connection are: request and response buffers are recycled, so strings that alias them and
+// were kept (as map keys, in storages) change under their owner's feet. The returned ctx is valid until the next call.
+type Reuse struct{ ctx *fasthttp.RequestCtx }
+
+func (r *Reuse) Do(app *fiber.App, method, uri string, hdr ...string) *fasthttp.RequestCtx {
+	if r.ctx == nil {
+		r.ctx = &fasthttp.RequestCtx{}
+	}
+	var req fasthttp.Request
+	req.Header.SetMethod(method)
+	req.SetRequestURI(uri)
+	for i := 0; i+1 < len(hdr); i += 2 {
+		req.Header.Add(hdr[i], hdr[i+1])
+	}
+	r.ctx.Response.Reset() // keeps the body buffer, as the server does between two requests of a connection
+	r.ctx.Init(&req, &net.TCPAddr{IP: net.IPv4(10, 0, 0, 9), Port: 1234}, nil)
+	app.Handler()(r.ctx)
+	return r.ctx
+}
